@@ -92,6 +92,11 @@ def gen_case(rng, k):
             if r2.random() < 0.3:
                 call["relabel"] = "roll"
     c["calls"] = calls
+    r3 = random.Random(c["seed"] ^ 0x11D)
+    if r3.random() < 0.3:
+        c["label_offset"] = r3.choice([2 ** 53, 2 ** 60, 7 * 10 ** 16])      # 64-bit particle ids: consecutive labels that collide as doubles
+    if not isinstance(c["expr"], int) and r3.random() < 0.5:
+        c["derived"] = True      # a second composite is made from this one (composite * 2) and used in between: each reports about its own last call
     return c
 
 
@@ -226,6 +231,9 @@ def run(res: C.Result):
                     why.append(f"number_of_moved_particles={rec['number_moved']} but {len(nn)} sub-moves succeeded")
                 if rec["ret"] != (len(nn) > 0):
                     why.append(f"return value {rec['ret']} with {len(nn)} moved particles")
+                if "number_moved_after_other" in rec and (rec["number_moved_after_other"] != rec["number_moved"] or rec["displaced_after_other"] != rec["displaced"]):
+                    why.append(f"number_of_moved_particles={rec['number_moved']} (labels {rec['displaced']}) right after the call, but {rec['number_moved_after_other']} (labels "
+                               f"{rec['displaced_after_other']}) after ANOTHER composite (made from this one with * 2) was called: the report is no longer about this move's last call")
                 shared = all(l == subs_labels[0] for l in subs_labels)
                 no_veto = rec["checks"] == len(nn)
                 if shared and no_veto:
